@@ -295,8 +295,13 @@ def r3(ctx):
     if ok:
         idx = U.expand_locals(di.node, last[0].targets[0].slice,
                               before=last[0].lineno)
-        ok = src(idx) == 'self.group_data[:, -1] == %s - 1' % N and \
-            src(last[0].value) == 'm_remaining / np.count_nonzero(last_idx)'
+        val = U.expand_locals(di.node, last[0].value, before=last[0].lineno,
+                              keep=('m_remaining', 'm'))
+        mask = 'self.group_data[:, -1] == %s - 1' % N
+        ok = src(idx) == mask and ' '.join(src(val).split()) in (
+            'm_remaining / np.count_nonzero(%s)' % mask,
+            'm_remaining / np.sum(%s)' % mask,
+            'm_remaining / (%s).sum()' % mask)
         ok = ok and not U.guards(last[0], stop=w) and \
             last[0].lineno > floops[0].end_lineno
     ctx.require(ok, 'C20.R3', di, last[0] if last else w,
